@@ -185,6 +185,19 @@ def _centre(rng, p_none=0.3):
     return [dyadic(rng, -1, 1, 6), dyadic(rng, -1, 1, 6)]
 
 
+def gen_irrpoly(rng):
+    n = int(rng.integers(3, 8))
+    c = [dyadic(rng, -1, 1, 5), dyadic(rng, -1, 1, 5)]
+    angs = sorted(rng.uniform(0, 2 * math.pi, n))
+    vs = []
+    for a in angs:
+        rad = dyadic(rng, 0.3, 2, 5)
+        vs.append([round((c[0] + rad * math.cos(a)) * 256) / 256, round((c[1] + rad * math.sin(a)) * 256) / 256])
+    if rng.random() < 0.2:
+        vs = [vs[int(i)] for i in rng.permutation(n)]       # self-intersecting: even-odd rule
+    return ['irrpoly', vs]
+
+
 def gen_primitive(rng):
     k = rng.choice(['circle', 'ellipse', 'rect', 'regpoly', 'regpoly', 'irrpoly', 'spider', 'spiderinf'])
     if k == 'circle':
@@ -198,16 +211,7 @@ def gen_primitive(rng):
         n = int(rng.choice([3, 4, 5, 6, 6, 7, 8, 12]))
         return ['regpoly', n, dyadic(rng, 0.5, 3.5, 6), _angle(rng), _centre(rng)]
     if k == 'irrpoly':
-        n = int(rng.integers(3, 8))
-        c = [dyadic(rng, -1, 1, 5), dyadic(rng, -1, 1, 5)]
-        angs = sorted(rng.uniform(0, 2 * math.pi, n))
-        vs = []
-        for a in angs:
-            rad = dyadic(rng, 0.3, 2, 5)
-            vs.append([round((c[0] + rad * math.cos(a)) * 256) / 256, round((c[1] + rad * math.sin(a)) * 256) / 256])
-        if rng.random() < 0.2:
-            vs = [vs[int(i)] for i in rng.permutation(n)]       # self-intersecting: even-odd rule
-        return ['irrpoly', vs]
+        return gen_irrpoly(rng)
     if k == 'spider':
         return ['spider', [dyadic(rng, -2, 2, 5), dyadic(rng, -2, 2, 5)], [dyadic(rng, -2, 2, 5), dyadic(rng, -2, 2, 5)],
                 dyadic(rng, 0.0625, 1, 6)]
@@ -544,7 +548,7 @@ def shrink(gspec, sspec, over):
     return sspec, real_failures(gspec, sspec, over)[-1]
 
 
-def run_generic(ctx, gspec, sspec, over=None, want_model=True):
+def run_generic(ctx, gspec, sspec, over=None, want_model=True, corner=None):
     """Returns the model requests and a closure that checks the responses."""
     reps, xs, ys, sep, toks, scale, res, sup, fails = real_failures(gspec, sspec, over, ctx)
     label = top_kind(sspec)
@@ -555,6 +559,10 @@ def run_generic(ctx, gspec, sspec, over=None, want_model=True):
             ctx.violation(key, what, {'kind': 'generic', 'grid': gspec, 'shape': small, 'over': over, 'shrunk_from': sspec})
     if sup is not None:
         ctx.count('supersampled')
+    if corner is not None:
+        for name, v in res.items():
+            if v is not None:
+                ctx.count('corner:%s|%s|%s' % (corner[0], corner[1], rep_class(name) if name != 'polar-separated' else 'polar'))
     ctx.count('grid:' + gspec[0])
     for feat in grid_features(gspec, sep):
         ctx.count('axes:' + feat)
@@ -630,7 +638,7 @@ SWEEP_MAKERS = [
     lambda rng: ['rect', [dyadic(rng, 0.5, 3, 6), dyadic(rng, 0.5, 3, 6)], _centre(rng, 0.2)],
     lambda rng: ['regpoly', int(rng.choice([4, 6, 8])), dyadic(rng, 1, 3.5, 6), _angle(rng), _centre(rng, 0.2)],
     lambda rng: ['regpoly', int(rng.choice([3, 5, 7])), dyadic(rng, 1, 3.5, 6), _angle(rng), _centre(rng, 0.2)],
-    lambda rng: [s for s in [gen_primitive(rng) for _ in range(40)] if s[0] == 'irrpoly'][0],
+    gen_irrpoly,
     lambda rng: ['spider', [dyadic(rng, -2, 2, 5), dyadic(rng, -2, 2, 5)], [dyadic(rng, -2, 2, 5), dyadic(rng, -2, 2, 5)], dyadic(rng, 0.25, 1, 6)],
     lambda rng: ['spiderinf', [dyadic(rng, -1, 1, 5), dyadic(rng, -1, 1, 5)], dyadic(rng, -360, 360, 2), dyadic(rng, 0.25, 1, 6)],
     lambda rng: ['obstructed', dyadic(rng, 2, 4, 5), dyadic(rng, 0.1, 0.6, 5), int(rng.integers(0, 5)), dyadic(rng, 0.0625, 0.5, 6)],
@@ -643,6 +651,74 @@ SWEEP_MAKERS = [
 ]
 HEX_PUPILS = ('make_keck_aperture', 'make_luvoir_a_aperture', 'make_luvoir_b_aperture', 'make_hicat_aperture',
               'make_elt_aperture', 'make_tmt_aperture')
+
+
+# ---------------------------------------------------------------------------------------------
+# parameter corner values: a seed-independent sweep that is part of EVERY run
+
+CORNER_GRIDS = [
+    ['regular', [9, 8], [0.375, 0.4375], [-1.46875, -1.5]],
+    ['polarsep', [0.0, 0.25, 0.625, 1.0, 1.5], [-2.5, -1.5707963267948966, -0.5, 0.0, 0.75, 1.5707963267948966, 3.141592653589793]],
+    ['sep', [1.75, 1.0, 0.5, 0.0, -0.5, -1.25], [-1.5, -0.375, 0.0, 0.375, 1.25]],
+]
+CORNER_CENTRES = [('None', None), ('origin', [0.0, 0.0]), ('x+,y0', [0.5, 0.0]), ('x-,y0', [-0.5, 0.0]), ('x0,y+', [0.0, 0.375]),
+                  ('x0,y-', [0.0, -0.375]), ('x+,y-0', [0.5, -0.0]), ('x-0,y+', [-0.0, 0.375]), ('x-0,y-0', [-0.0, -0.0]),
+                  ('generic', [0.5, 0.25])]
+CORNER_ANGLES = [('0', 0.0), ('+pi/2', math.pi / 2), ('-pi/2', -math.pi / 2), ('pi', math.pi), ('-pi', -math.pi)]
+CORNER_SHIFTS = [('origin', [0.0, 0.0]), ('x+', [0.5, 0.0]), ('x-', [-0.5, 0.0]), ('y+', [0.0, 0.375]), ('y-', [0.0, -0.375]),
+                 ('x+,y-0', [0.5, -0.0])]
+
+
+def corner_cases():
+    """[(maker, corner class, shape spec)] — fixed, does not consume the PRNG"""
+    out = []
+    for cn, c in CORNER_CENTRES:
+        out.append(('circle', 'centre:' + cn, ['circle', 1.5, c]))
+        out.append(('ellipse', 'centre:' + cn, ['ellipse', [2.0, 1.0], c, 0.5]))
+        out.append(('rect', 'centre:' + cn, ['rect', [1.5, 1.0], c]))
+        out.append(('regpoly-even', 'centre:' + cn, ['regpoly', 6, 1.75, 0.25, c]))
+        out.append(('regpoly-odd', 'centre:' + cn, ['regpoly', 5, 1.75, 0.25, c]))
+        out.append(('segmented(regpoly)', 'centre:' + cn, ['segmented', ['regpoly', 6, 0.875, 0.0, c], [[0.0, 0.0], [0.75, 0.0], [0.0, -0.75]], [0.25, 0.5, 1.0]]))
+        out.append(('segmented(circle)', 'centre:' + cn, ['segmented', ['circle', 0.75, c], [[0.0, 0.0], [0.75, 0.0], [0.0, -0.75]], [0.25, 0.5, 1.0]]))
+        out.append(('obstruction(circle)', 'centre:' + cn, ['obstruction', ['circle', 1.0, c]]))
+        out.append(('rotated(circle)', 'centre:' + cn, ['rotated', ['circle', 1.0, c], 0.5]))
+        if c is not None:
+            out.append(('spiderinf', 'start:' + cn, ['spiderinf', c, 30.0, 0.375]))
+            out.append(('spider', 'start:' + cn, ['spider', c, [1.0, 0.75], 0.375]))
+            out.append(('segmented(regpoly)', 'position:' + cn, ['segmented', ['regpoly', 6, 0.875, 0.0, None], [c], 0.5]))
+    for an, a in CORNER_ANGLES:
+        out.append(('ellipse', 'angle:' + an, ['ellipse', [2.5, 1.0], [0.5, 0.0], a]))
+        out.append(('regpoly-even', 'angle:' + an, ['regpoly', 6, 2.0, a, [0.25, 0.0]]))
+        out.append(('regpoly-even', 'angle:' + an + '(square)', ['regpoly', 4, 2.0, a, None]))
+        out.append(('regpoly-odd', 'angle:' + an, ['regpoly', 5, 2.0, a, [0.0, 0.25]]))
+        out.append(('regpoly-odd', 'angle:' + an + '(triangle)', ['regpoly', 3, 2.0, a, None]))
+        out.append(('rotated', 'angle:' + an, ['rotated', ['rect', [2.0, 0.75], [0.5, 0.0]], a]))
+        out.append(('rotated', 'angle:' + an + '(pentagon)', ['rotated', ['regpoly', 5, 2.0, 0.0, [0.0, 0.5]], a]))
+        out.append(('spiderinf', 'angle:' + an, ['spiderinf', [0.25, 0.0], math.degrees(a), 0.375]))
+    for dn, p2 in [('+x', [1.5, 0.25]), ('-x', [-1.5, 0.25]), ('+y', [0.0, 1.75]), ('-y', [0.0, -1.25]), ('zero-length', [0.0, 0.25])]:
+        out.append(('spider', 'direction:' + dn, ['spider', [0.0, 0.25], p2, 0.375]))
+    for sn, sh in CORNER_SHIFTS:
+        out.append(('shifted', 'shift:' + sn, ['shifted', ['regpoly', 6, 1.75, 0.0, None], sh]))
+        out.append(('shifted', 'shift:' + sn + '(circle)', ['shifted', ['circle', 1.25, [0.25, 0.0]], sh]))
+        out.append(('shifted', 'shift:' + sn + '(irrpoly)', ['shifted', ['irrpoly', [[-0.5, -0.5], [1.0, -0.5], [1.0, 0.5], [-0.5, 0.5]]], sh]))
+    sizes = [('equal', [1.5, 1.5]), ('scalar', 1.5), ('wide', [3.5, 0.125]), ('tall', [0.125, 3.5]), ('tiny', [0.03125, 0.03125]), ('huge', [16.0, 16.0])]
+    for zn, z in sizes:
+        out.append(('rect', 'size:' + zn, ['rect', z, [0.25, 0.0]]))
+        if zn != 'scalar':
+            out.append(('ellipse', 'size:' + zn, ['ellipse', z, [0.0, 0.25], 0.0]))
+    for zn, d in [('tiny', 0.03125), ('huge', 16.0), ('unit', 1.0)]:
+        out.append(('circle', 'size:' + zn, ['circle', d, [0.25, 0.0]]))
+        out.append(('regpoly-even', 'size:' + zn, ['regpoly', 6, d, 0.0, [0.0, 0.25]]))
+        out.append(('regpoly-odd', 'size:' + zn, ['regpoly', 3, d, 0.0, [0.25, 0.0]]))
+    for rn, ratio, nsp in [('ratio0', 0.0, 0), ('ratio0-4spiders', 0.0, 4), ('ratio-large', 0.75, 3), ('one-spider', 0.25, 1)]:
+        out.append(('obstructed', 'size:' + rn, ['obstructed', 2.5, ratio, nsp, 0.125]))
+    out.append(('irrpoly', 'axis-aligned', ['irrpoly', [[-0.75, -0.375], [0.75, -0.375], [0.75, 0.375], [-0.75, 0.375]]]))
+    out.append(('irrpoly', 'horizontal-edge', ['irrpoly', [[-1.0, 0.0], [1.0, 0.0], [0.0, 1.25]]]))
+    out.append(('irrpoly', 'vertex-on-axis', ['irrpoly', [[0.0, -1.0], [1.25, 0.0], [0.0, 0.75], [-0.5, 0.0]]]))
+    out.append(('hexseg', 'no-gap', ['hexseg', 1, 0.75, 0.0, 0]))
+    out.append(('hexseg', 'starting-ring-1', ['hexseg', 2, 0.5, 0.0625, 1]))
+    out.append(('segmented(regpoly)', 'transmission:0-and-1', ['segmented', ['regpoly', 6, 0.875, 0.0, None], [[0.0, 0.0], [0.75, 0.0]], [0.0, 1.0]]))
+    return out
 
 
 DIRECTED = [
@@ -713,7 +789,7 @@ def pupil_configs():
     return cfgs
 
 
-def run_pupil(ctx, name, kw, gseed, over=None, fam=None):
+def run_pupil(ctx, name, kw, gseed, over=None, fam=None, gspec_fixed=None):
     import hcipy.aperture.realistic as rl
     rng = np.random.default_rng(gseed)
     kw_real = dict(kw)
@@ -743,6 +819,9 @@ def run_pupil(ctx, name, kw, gseed, over=None, fam=None):
         fam = FAMILIES[int(rng.choice(len(FAMILIES), p=w / w.sum()))]
     half = 0.55 * D * (float(rng.uniform(0.05, 1.0)) if name.startswith('make_vlti') else float(rng.uniform(0.7, 1.1)))
     gspec = gen_grid_family(rng, fam, nmax=nmax, half=half, exact=False)
+    if gspec_fixed is not None:
+        gspec = gspec_fixed
+        case['gspec_fixed'] = gspec_fixed
     case['fam'] = fam
     case['grid'] = gspec
     reps, xs, ys, sep = make_reps(gspec)
@@ -868,7 +947,12 @@ def run_keck(ctx, kw, gseed, fam):
 
 # D120: VLT segment generators on a separated grid with a single row
 DIRECTED_PUPILS = [('make_vlt_aperture', {'normalized': False, 'with_spiders': False, 'with_M3_cover': False, 'return_segments': True},
-                    948772170, 'size1-y')]
+                    948772170, 'size1-y', None),
+                   # HST mirror pads: circles whose centre has a zero component (x = -0.0); fine grids around pad 0
+                   ('make_hst_aperture', {'normalized': False, 'with_spiders': True, 'with_pads': True}, 1, 'regular',
+                    ['regular', [7, 7], [0.03125, 0.03125], [-0.09375, 0.97677]]),
+                   ('make_hst_aperture', {'normalized': True, 'with_spiders': False, 'with_pads': True}, 2, 'regular',
+                    ['regular', [7, 7], [0.015625, 0.015625], [-0.046875, 0.399175]])]
 
 KECK_CONFIGS = [{}, {'normalized': True}, {'with_spiders': False}, {'with_segment_gaps': False}, {'gap_padding': 3},
                 {'normalized': True, 'with_spiders': False, 'gap_padding': 30}, {'transmissions': True},
@@ -912,31 +996,46 @@ def run(ctx):
                         'cos/sin/apothem constants are recomputed by the harness with the NumPy expressions of the maker closures',
                         'as_(polar)/as_(cartesian) round trips move a point by far less than 1e-7*scale']
     big = ctx.tier == 'thorough'
-    n = ctx.scale(600, 9000)
-    cases = [(g, s, None) for g, s in DIRECTED]
+    n = ctx.scale(300, 9000)
+    cases = [(g, s, None, None) for g, s in DIRECTED]
+    corners = corner_cases()
+    for k, (mk, cls, spec) in enumerate(corners):
+        for gi, g in enumerate(CORNER_GRIDS):
+            if gi == 2 and ctx.quick() and k % 3:
+                continue            # quick tier: the descending separated grid for every third corner case only
+            cases.append((g, spec, None, (mk, cls)))
     for k in range(n):
         g = gen_grid(ctx.rng, big and k % 2 == 0)
         s = gen_shape(ctx.rng)
         over = None
         if ctx.rng.random() < 0.3:
             over = int(ctx.rng.integers(1, 5)) if ctx.rng.random() < 0.7 else [int(ctx.rng.integers(1, 4)), int(ctx.rng.integers(1, 4))]
-        cases.append((g, s, over))
+        cases.append((g, s, over, None))
     # coverage sweep: every maker on every grid family (descending / mixed-direction / library-reversed
     # / size-1 axes, polar grids containing the origin)
     sweep_rounds = ctx.scale(1, 4)
     for _ in range(sweep_rounds):
         for mk in SWEEP_MAKERS:
             for fam in FAMILIES:
-                cases.append((gen_grid_family(ctx.rng, fam), mk(ctx.rng), None))
+                cases.append((gen_grid_family(ctx.rng, fam), mk(ctx.rng), None, None))
     lines, checks = [], []
-    for g, s, over in cases:
-        l, chk = run_generic(ctx, g, s, over)
+    for g, s, over, corner in cases:
+        l, chk = run_generic(ctx, g, s, over, corner=corner)
         checks.append((len(lines), len(l), chk))
         lines += l
+    # coverage assertion for the corner sweep: every (maker, corner class) was evaluated without error on a polar and on
+    # every Cartesian representation
+    ncorner = 0
+    for mk, cls, _ in corners:
+        for rep in ('regular', 'separated', 'unstructured', 'polar'):
+            if not ctx.dist.get('corner:%s|%s|%s' % (mk, cls, rep), 0):
+                raise MachineryError('corner sweep: %s with %s was never evaluated on a %s grid' % (mk, cls, rep))
+        ncorner += 1
+    ctx.extra['corner_sweep'] = {'maker_corner_pairs': ncorner, 'grids': len(CORNER_GRIDS), 'cases': sum(1 for c in cases if c[3] is not None)}
     for _ in range(ctx.scale(1, 4)):
         for kw in KECK_CONFIGS:
             for fam in FAMILIES:
-                if ctx.quick() and ctx.rng.random() < 0.5:
+                if ctx.quick() and ctx.rng.random() < 0.75:
                     continue
                 l, chk = run_keck(ctx, kw, int(ctx.rng.integers(0, 2 ** 31)), fam)
                 checks.append((len(lines), len(l), chk))
@@ -950,10 +1049,10 @@ def run(ctx):
     if compared + skipped and skipped > 0.05 * (compared + skipped):
         raise MachineryError('more than 5%% of the points were boundary-skipped (%d of %d): the generator is broken' % (skipped, compared + skipped))
     # telescope pupils
-    for name, kw, gseed, fam in DIRECTED_PUPILS:
-        run_pupil(ctx, name, kw, gseed, None, fam)
+    for name, kw, gseed, fam, gfix in DIRECTED_PUPILS:
+        run_pupil(ctx, name, kw, gseed, None, fam, gfix)
     cfgs = pupil_configs()
-    rounds = ctx.scale(2, 12)
+    rounds = ctx.scale(1, 12)
     for rnd in range(rounds):
         for name, kw in cfgs:
             if not big and name in HEAVY and ctx.rng.random() < 0.5 and kw:
@@ -1019,7 +1118,7 @@ def replay(ctx, case):
     if case.get('kind') == 'keck':
         run_keck(ctx, case['kw'], case['gseed'], case['fam'])
     elif case.get('kind') == 'pupil':
-        run_pupil(ctx, case['name'], case['kw'], case['gseed'], case.get('over'), case.get('fam'))
+        run_pupil(ctx, case['name'], case['kw'], case['gseed'], case.get('over'), case.get('fam'), case.get('gspec_fixed'))
     else:
         run_generic(ctx, case['grid'], case['shape'], case.get('over'), want_model=False)
     for v in ctx.violations:
